@@ -74,24 +74,41 @@ pub fn gen_world(seed: u64, idx: u64, s: &dyn SuiteOps, shared_tapes: bool, samp
     }
     let mut pw3 = pw1.clone();
     pw3.push(b'!');
-    let cred_a = small_cred(&mut g);
-    let mut cred_b = small_cred(&mut g);
-    if cred_b == cred_a {
-        cred_b.push(1);
-    }
-    let ksf = gen_ksf(&mut g, fam, true);
-    let ids = if g.chance(1, 3) {
-        WIds { client: IdSpec::Bytes(b"client".to_vec().into()), server: IdSpec::Bytes(b"server".to_vec().into()) }
+    // credential identifiers: short, or twins sharing a long prefix / differing in whitespace
+    let (cred_a, cred_b) = if g.chance(1, 3) {
+        let pairs = crate::checks::c05::cred_pairs(&mut g);
+        let twins: Vec<&(Vec<u8>, Vec<u8>)> = pairs.iter().filter(|p| p.0 != p.1 && p.0.len() < 1000).collect();
+        let p = *g.pick(&twins);
+        (p.0.clone(), p.1.clone())
     } else {
-        WIds::default()
+        let a = small_cred(&mut g);
+        let mut b2 = small_cred(&mut g);
+        if b2 == a {
+            b2.push(1);
+        }
+        (a, b2)
     };
+    let ksf = gen_ksf(&mut g, fam, true);
+    // identities: shared by everybody, or per user (then a cross-user routing also disagrees on identities)
+    let idmode = g.below(5);
+    let uid = |name: &[u8]| -> WIds {
+        match idmode {
+            0 => WIds::default(),
+            1 => WIds { client: IdSpec::Bytes(b"client".to_vec().into()), server: IdSpec::Bytes(b"server".to_vec().into()) },
+            2 => WIds { client: IdSpec::Bytes(name.to_vec().into()), server: IdSpec::Absent },
+            3 => WIds { client: IdSpec::Absent, server: IdSpec::Bytes(b"server".to_vec().into()) },
+            _ => WIds { client: IdSpec::Bytes(name.to_vec().into()), server: IdSpec::Bytes(b"server".to_vec().into()) },
+        }
+    };
+    let names: [&[u8]; 4] = [b"alice", b"bob", b"carol", b"alice"];
+    let ids = uid(b"alice");
     let ctx = if g.chance(1, 2) { Some(b"c07".to_vec()) } else { None };
     let mut prelude: Vec<Op> = vec![];
     let mut regs = vec![];
-    for (pw, cred) in [(&pw1, &cred_a), (&pw2, &cred_b), (&pw1, &cred_b), (&pw1, &cred_a)] {
-        let (r, ops) = b.reg_ops(&mut g, setup, pw, pw, cred, ids.clone(), ksf.clone(), false);
+    for (k, (pw, cred)) in [(&pw1, &cred_a), (&pw2, &cred_b), (&pw1, &cred_b), (&pw1, &cred_a)].into_iter().enumerate() {
+        let (r, ops) = b.reg_ops(&mut g, setup, pw, pw, cred, uid(names[k]), ksf.clone(), false);
         prelude.extend(ops);
-        regs.push((r.record, pw.clone(), cred.clone()));
+        regs.push((r.record, pw.clone(), cred.clone(), uid(names[k])));
     }
     // an earlier day: one complete honest login of u1, later replayed
     let (old, ops) = b.login_ops(&mut g, setup, Some(regs[0].0), &pw1, &pw1, &cred_a, ctx.clone(), ctx.clone(), ids.clone(), ids.clone(), ksf.clone(), false);
@@ -103,21 +120,21 @@ pub fn gen_world(seed: u64, idx: u64, s: &dyn SuiteOps, shared_tapes: bool, samp
     let stape = |b: &mut WB, what: &str| if shared_tapes { Tape::Shared("server".into()) } else { b.tape(what) };
     // live client sessions
     let mut adv: Vec<Op> = vec![];
-    let mut clients: Vec<(u32, u32, Vec<u8>)> = vec![]; // (state, request, password)
-    for pw in [&pw1, &pw2, &pw3, &pw1] {
+    let mut clients: Vec<(u32, u32, Vec<u8>, WIds)> = vec![]; // (state, request, password, the identities this user expects)
+    for (pw, who) in [(&pw1, 0usize), (&pw2, 1), (&pw3, 0), (&pw1, 2)] {
         let st = b.id();
         let msg = b.id();
         let tape = ctape(&mut b, "loginstart");
         adv.push(Op::LoginStart { st, msg, tape, pw: pw.clone().into() });
-        clients.push((st, msg, pw.clone()));
+        clients.push((st, msg, pw.clone(), uid(names[who])));
     }
     // every request (4 live + the old one) -> every (record | none, cred)
     let mut requests: Vec<u32> = clients.iter().map(|c| c.1).collect();
     requests.push(old.req);
     let mut sessions: Vec<(u32, u32)> = vec![]; // (server state, response)
-    let records: Vec<Option<u32>> = regs.iter().map(|r| Some(r.0)).chain([None]).collect();
+    let records: Vec<(Option<u32>, WIds)> = regs.iter().map(|r| (Some(r.0), r.3.clone())).chain([(None, uid(b"nobody"))]).collect();
     for rq in &requests {
-        for rec in &records {
+        for (rec, rids) in &records {
             for cred in [&cred_a, &cred_b] {
                 let st = b.id();
                 let msg = b.id();
@@ -125,7 +142,7 @@ pub fn gen_world(seed: u64, idx: u64, s: &dyn SuiteOps, shared_tapes: bool, samp
                 // the network is bytes: a third of the deliveries go through a codec
                 let vq = if g.chance(1, 3) { via(&mut g) } else { crate::suite::Codec::Mem };
                 let vr = if g.chance(1, 6) { via(&mut g) } else { crate::suite::Codec::Mem };
-                adv.push(Op::LoginRespond { st, msg, tape, setup: Ref::mem(setup), record: rec.map(|r| Ref::via(r, vr)), req: Ref::via(*rq, vq), cred: cred.clone().into(), ctx: ctx.clone().map(Into::into), ids: ids.clone() });
+                adv.push(Op::LoginRespond { st, msg, tape, setup: Ref::mem(setup), record: rec.map(|r| Ref::via(r, vr)), req: Ref::via(*rq, vq), cred: cred.clone().into(), ctx: ctx.clone().map(Into::into), ids: rids.clone() });
                 sessions.push((st, msg));
             }
         }
@@ -136,7 +153,7 @@ pub fn gen_world(seed: u64, idx: u64, s: &dyn SuiteOps, shared_tapes: bool, samp
     let mut fins: Vec<u32> = vec![old.fin];
     let mut n = 0usize;
     for rs in &responses {
-        for (cst, _, pw) in &clients {
+        for (cst, _, pw, cids) in &clients {
             n += 1;
             if let Some(k) = sample {
                 if g.below(k) != 0 {
@@ -146,7 +163,7 @@ pub fn gen_world(seed: u64, idx: u64, s: &dyn SuiteOps, shared_tapes: bool, samp
             let out = b.id();
             let vs = if g.chance(1, 4) { via(&mut g) } else { crate::suite::Codec::Mem };
             let vr = if g.chance(1, 3) { via(&mut g) } else { crate::suite::Codec::Mem };
-            adv.push(Op::LoginFinish { out, st: Ref::via(*cst, vs), pw: pw.clone().into(), resp: Ref::via(*rs, vr), ctx: ctx.clone().map(Into::into), ids: ids.clone(), ksf: ksf.clone() });
+            adv.push(Op::LoginFinish { out, st: Ref::via(*cst, vs), pw: pw.clone().into(), resp: Ref::via(*rs, vr), ctx: ctx.clone().map(Into::into), ids: cids.clone(), ksf: ksf.clone() });
             fins.push(out);
         }
     }
@@ -167,8 +184,8 @@ pub fn gen_world(seed: u64, idx: u64, s: &dyn SuiteOps, shared_tapes: bool, samp
     }
     // faults stop: every registered user logs in honestly, in exactly four steps
     let mut nl = 0;
-    for (rec, pw, cred) in &regs {
-        let (_, ops) = b.login_ops(&mut g, setup, Some(*rec), pw, pw, cred, ctx.clone(), ctx.clone(), ids.clone(), ids.clone(), ksf.clone(), false);
+    for (rec, pw, cred, rids) in &regs {
+        let (_, ops) = b.login_ops(&mut g, setup, Some(*rec), pw, pw, cred, ctx.clone(), ctx.clone(), rids.clone(), rids.clone(), ksf.clone(), false);
         for o in ops {
             b.push(o);
         }
